@@ -378,5 +378,74 @@ class PrivatePart(Part):
         return res
 
 
+class LongHistory(Part):
+    name = "after_long_history"
+    desc = "one long line history per configuration (horizon): afterwards masks and preserved addresses are still verbatim and the adversarial outside addresses still map outside"
+
+    def __init__(self, tier, seed):
+        self.tier, self.seed = tier, seed
+
+    def cases(self):
+        n = 40000 if self.tier == "quick" else 150000
+        return [{"nets": nets, "B": B, "n": n} for nets in (["10.0.0.0/8", "172.16.0.0/12", "192.168.0.0/16"], ["11.11.0.0/16", "200.7.6.5/32"])
+                for B in (0, 8)]
+
+    def run(self, case):
+        m = ipdom.mod()
+        res = Res()
+        nets = [ipaddress.ip_network(n) for n in case["nets"]]
+        an = ipdom.make_v4(["md5", "saltForTest"], case["B"], None, list(case["nets"]))
+        unpinned = ipdom.make_v4(["md5", "saltForTest"], case["B"], [], None)   # no prefix pinned at all
+        # adversarial outside addresses: what an anonymizer that forgot the networks would send into them
+        # (two disjoint sets: an address asked before the history may simply be remembered afterwards)
+        probe_sets = {"fresh": [], "after": []}
+        for net in nets:
+            for off in (0, 1, 77, 78, net.num_addresses // 2, net.num_addresses // 2 + 1, net.num_addresses - 1):
+                y = int(net.network_address) + min(off, net.num_addresses - 1)
+                x = unpinned.deanonymize(y)
+                if not refs.in_any(x, nets) and not refs.is_mask32(x):
+                    probe_sets["fresh" if off in (0, 77, net.num_addresses // 2) else "after"].append(x)
+        probes = probe_sets["fresh"] + probe_sets["after"]
+        inside = sorted({int(n.network_address) + min(k, n.num_addresses - 1) for n in nets
+                         for k in (0, 1, n.num_addresses - 1)})
+        masks = sorted(refs.MASKS32)[::5]
+
+        def check(stage):
+            for x in probe_sets["fresh" if stage == "fresh" else "after"]:
+                res.evals += 1
+                out = m.anonymize_ip_addr(an, "a %s b" % refs.v4_text(x), False).split()[1]
+                if refs.in_any(int(ipaddress.IPv4Address(out)), nets):
+                    res.violation("outside-address-mapped-into-preserved-network|" + stage,
+                                  "networks %r host bits %d: %s -> %s" % (case["nets"], case["B"], refs.v4_text(x), out), case)
+                    return False
+            for x in inside + masks:
+                res.evals += 1
+                out = m.anonymize_ip_addr(an, "a %s b" % refs.v4_text(x), False).split()[1]
+                if out != refs.v4_text(x):
+                    res.violation("preserved-value-changed|" + stage, "%s -> %s" % (refs.v4_text(x), out), case)
+                    return False
+            return True
+
+        if not check("fresh"):
+            return res
+        for i, a in enumerate(ipdom.scattered(self.seed, 32, case["n"])):
+            line = "x %s y" % refs.v4_text(a)
+            out = m.anonymize_ip_addr(an, line, False)
+            res.transitions += 1
+            if i % 4096 == 0:
+                o = int(ipaddress.IPv4Address(out.split()[1]))
+                if not refs.in_any(a, nets) and not refs.is_mask32(a) and refs.in_any(o, nets):
+                    res.violation("outside-address-mapped-into-preserved-network|during",
+                                  "request %d: %s -> %s" % (i, refs.v4_text(a), out.split()[1]), case)
+                    return res
+        check("after-%d-requests" % case["n"])
+        res.states = 1
+        res.nt((tuple(case["nets"]), case["B"]))
+        res.out(len(getattr(an, "cache", ())))
+        res.samples.append({"case": case, "probes": len(probes)})
+        return res
+
+
 def parts(tier, seed):
-    return [MaskPart(tier, seed), NetworkPart(tier, seed), LazyPart(tier, seed), PrivatePart(tier, seed)]
+    return [MaskPart(tier, seed), NetworkPart(tier, seed), LazyPart(tier, seed), PrivatePart(tier, seed),
+            LongHistory(tier, seed)]
